@@ -16,25 +16,33 @@ Proved here, for **all** documents (no bound on the number or length of lines, a
 * `C06_unterminated_*` – an unterminated front-matter / foreign block / scrut block yields one
   token that holds all remaining lines.
 
-* `C06_wellformed` – for every document that is a sequence of prose lines (any line that is not a
-  fence start and not `---`: blank, text, headings, lines that merely start with one or two
-  backticks, …) and scrut blocks (fence of any length ≥ 3 with optional `{…}`, comment lines, `$`
-  line, `>` lines, expectation lines, optional exit code line, closing fence): the parser succeeds
-  and yields exactly `expectedTests`: one test per block, in order, with shell expression,
-  expectation texts, exit code, inline configuration, 1-based line number of the `$` line and the
-  title as the code defines it (run of heading/paragraph lines not yet used by a test);
-* `C06_wellformed_lines`, `C06_wellformed_cores`, `C06_prose_inert` – consequences that do not
-  mention `expectedTests`' title bookkeeping: every line number is that of a `$` line; count, order and content of the tests are those of the blocks as written; inserting a
-  prose line anywhere between items changes neither count, order nor content.
+* `C06_wellformed` – for every document of the generator's grammar (`ItemsWF`), i.e. a sequence of
+  - prose lines (any line that is not a fence start: blank, text, headings, lines that merely
+    start with one or two backticks, `---` once content has started, …),
+  - front-matter (`---`, lines, `---`) while no content has started (blank lines may precede it;
+    its YAML is opaque: `docCfgOk` accepts the text),
+  - foreign code blocks (language not a test language and not empty, fence of any length ≥ 3,
+    body lines that do not start with the opening fence, closing line = any line that starts with
+    the opening fence, e.g. a longer fence),
+  - scrut blocks without a command (comment lines only, or empty),
+  - scrut blocks with a command (optional `{…}`, comment lines, `$` line, `>` lines, then
+    expectation lines – among them at most one exit code line, anywhere – closing line as above),
+  the parser succeeds and yields exactly the front-matter texts (`docTexts`) and `expectedTests`:
+  one test per block with a command, in order, with shell expression, expectation texts, exit
+  code, inline configuration text, 1-based line number of the `$` line and the title as the code
+  defines it (see `expectedTests`: foreign blocks and front-matter are invisible to the title
+  logic, a block without command ends the run of title lines but keeps the title);
+* `C06_wellformed_lines`, `C06_wellformed_cores` – consequences that do not mention the title
+  bookkeeping: every line number is that of a `$` line; count, order and content of the tests
+  are those of the blocks as written;
+* `C06_prose_inert`, `C06_other_blocks_inert`, `C06_inert_items` – inserting a prose line, a
+  foreign block or a scrut block without command anywhere behind the front-matter keeps the
+  document parseable and changes neither the document configuration nor count, order and content
+  of the tests (only line numbers and titles may move).
 
-Not in the proved grammar (decided for generated documents by the by-construction oracle of the
-harness, streams `ast-by-construction` / `ast-prefixes`): front-matter, foreign code blocks between
-the items, blocks without command, an exit code line between expectation lines, expectation lines
-that start with `> `.  For those the full-strength statement stays
-
-    theorem C06_wellformed_full (d : Doc) (wf : d.WF) : parseMarkdown env (render d) = .ok d.tests
-
-with `Doc` = the generator AST of `harness/src/markdown.rs`; it is not proved.
+This is the whole grammar of the harness' generator (`harness/src/markdown.rs`, `Item`) except
+unterminated constructs at the end of the document: those are covered at token level by
+`C06_unterminated_*` and, with expected tests, by the stream `ast-prefixes`.
 
 Readings of the property that the code did not implement when this check first ran (harness
 classes `C06:state-leak`, `C06:bare-long-fence`, `C06:info-string-whitespace`,
@@ -82,17 +90,20 @@ theorem C06_unterminated_test (languages : List Line) (cs : Bool) (li : Nat)
       ∧ comments ++ code = number (li + 1) body :=
   unterminated_test languages cs li opener bt language config body hx hl hb
 
-/-- **Well-formed documents**: every scrut block becomes exactly one test, in document order, with
-exactly the shell expression, expectation lines, exit code, inline configuration, line number and
-title that are written; the prose around the blocks creates, hides and truncates nothing. -/
-theorem C06_wellformed (env : Env) (items : List Item) (wf : ∀ it ∈ items, it.WF env) :
-    parseLines env (render items) = .ok { docConfigs := [], tests := expectedTests env items 0 none [] } :=
+/-- **Well-formed documents**: every scrut block with a command becomes exactly one test, in
+document order, with exactly the shell expression, expectation lines, exit code, inline
+configuration, line number and title that are written; prose, front-matter, foreign blocks and
+blocks without a command create, hide and truncate nothing. -/
+theorem C06_wellformed (env : Env) (items : List Item) (wf : ItemsWF env false items) :
+    parseLines env (render items)
+      = .ok { docConfigs := docTexts items, tests := expectedTests env items 0 none [] } :=
   parseLines_render env items wf
 
 /-- the same for the text of the document -/
 theorem C06_wellformed_text (env : Env) (text : List Char) (items : List Item)
-    (h : splitLines text = render items) (wf : ∀ it ∈ items, it.WF env) :
-    parseMarkdown env text = .ok { docConfigs := [], tests := expectedTests env items 0 none [] } := by
+    (h : splitLines text = render items) (wf : ItemsWF env false items) :
+    parseMarkdown env text
+      = .ok { docConfigs := docTexts items, tests := expectedTests env items 0 none [] } := by
   unfold parseMarkdown
   rw [h]
   exact parseLines_render env items wf
@@ -110,16 +121,39 @@ theorem C06_wellformed_lines (env : Env) (items : List Item) :
   intro x hx
   simpa using expectedTests_lines env items 0 none [] x hx
 
-/-- Inserting a prose line (not a fence start *by the code's definition*, not `---`) between the
-items of a well-formed document: the document stays parseable and count, order and content
-(command, expectations, exit code, configuration) of its tests are unchanged – only line numbers
-and titles may move. -/
-theorem C06_prose_inert (env : Env) (pre post : List Item) (p : Line)
-    (wf : ∀ it ∈ pre ++ post, it.WF env) (hp : Item.WF env (.prose p)) :
-    ∃ ts ts', parseLines env (render (pre ++ post)) = .ok { docConfigs := [], tests := ts } ∧
-      parseLines env (render (pre ++ .prose p :: post)) = .ok { docConfigs := [], tests := ts' } ∧
+/-- Inserting an inert item `x` (prose line, foreign block, scrut block without command; well-formed
+at its position) between the items of a well-formed document, behind the front-matter: the
+document stays parseable, the document configuration and count, order and content (command,
+expectations, exit code, configuration) of its tests are unchanged – only line numbers and titles
+may move. -/
+theorem C06_inert_items (env : Env) (pre post : List Item) (x : Item) (hx : x.inert = true)
+    (hnf : noFront post = true) (wf : ItemsWF env false (pre ++ post))
+    (hxwf : x.WF env (csAfterAll false pre)) :
+    ∃ ts ts', parseLines env (render (pre ++ post)) = .ok { docConfigs := docTexts (pre ++ post), tests := ts } ∧
+      parseLines env (render (pre ++ x :: post))
+        = .ok { docConfigs := docTexts (pre ++ post), tests := ts' } ∧
       ts'.map TestCase.core = ts.map TestCase.core :=
-  prose_inert env pre post p wf hp
+  insert_inert env pre post x hx hnf wf hxwf
+
+/-- … a prose line (not a fence start *by the code's definition*; `---` only once content has
+started) -/
+theorem C06_prose_inert (env : Env) (pre post : List Item) (p : Line)
+    (hnf : noFront post = true) (wf : ItemsWF env false (pre ++ post))
+    (hp : Item.WF env (csAfterAll false pre) (.prose p)) :
+    ∃ ts ts', parseLines env (render (pre ++ post)) = .ok { docConfigs := docTexts (pre ++ post), tests := ts } ∧
+      parseLines env (render (pre ++ .prose p :: post))
+        = .ok { docConfigs := docTexts (pre ++ post), tests := ts' } ∧
+      ts'.map TestCase.core = ts.map TestCase.core :=
+  insert_inert env pre post (.prose p) rfl hnf wf hp
+
+/-- … a foreign code block (whatever its body: `$` lines, shorter fences, `---`, …) -/
+theorem C06_other_blocks_inert (env : Env) (pre post : List Item) (v : Fenced)
+    (hnf : noFront post = true) (wf : ItemsWF env false (pre ++ post)) (hv : v.ForeignWF env) :
+    ∃ ts ts', parseLines env (render (pre ++ post)) = .ok { docConfigs := docTexts (pre ++ post), tests := ts } ∧
+      parseLines env (render (pre ++ .foreign v :: post))
+        = .ok { docConfigs := docTexts (pre ++ post), tests := ts' } ∧
+      ts'.map TestCase.core = ts.map TestCase.core :=
+  insert_inert env pre post (.foreign v) rfl hnf wf hv
 
 /-! ## non-vacuity and witnesses -/
 
@@ -134,26 +168,46 @@ def scrutFence : Line := "```scrut".toList
 example : extractCodeBlockStart ['`', '`', '`', 's', 'c', 'r', 'u', 't']
     = .ok (some (['`', '`', '`'], ['s', 'c', 'r', 'u', 't'], [])) := by rfl
 
-/-- a block for the non-vacuity of `Block.WF`: "```scrut {a}", "# c", "$ x", "> y", "o", "[7]", "```" -/
+/-- a block for the non-vacuity of `Block.WF`: "```scrut {a}", "# c", "$ x", "> y", "o", "[7]",
+"> z" (an expectation, not a continuation: it does not follow the command directly), closed by the
+longer fence "`````" -/
 def exampleBlock : Block :=
   { opener := ['`', '`', '`', 's', 'c', 'r', 'u', 't', ' ', '{', 'a', '}'], bt := ['`', '`', '`'],
     language := ['s', 'c', 'r', 'u', 't'], config := ['{', 'a', '}'], comments := [['#', ' ', 'c']],
-    cmd := ['x'], more := [['y']], exps := [['o']], exit := some (['[', '7', ']'], 7) }
+    cmd := ['x'], more := [['y']], after := [['o'], ['[', '7', ']'], ['>', ' ', 'z']],
+    closer := ['`', '`', '`', '`', '`'] }
 
-/-- the hypotheses of `C06_wellformed` are satisfiable: a heading, a backtick-led prose line and
-the block above -/
-example : ∀ it ∈ [Item.prose ['#', ' ', 'T'], .prose ['`', '`', 'x', '`', '`'], .block exampleBlock],
-    it.WF envAll := by
-  intro it hit
-  simp only [List.mem_cons, List.not_mem_nil, or_false] at hit
-  rcases hit with rfl | rfl | rfl
-  · exact ⟨rfl, by decide⟩
-  · exact ⟨rfl, by decide⟩
-  · exact ⟨rfl, rfl, rfl, by decide, by decide, by decide, rfl⟩
+/-- a foreign block "````py", "```scrut", "$ no", "```", "````" (a nested shorter scrut fence) -/
+def exampleForeign : Fenced :=
+  { opener := ['`', '`', '`', '`', 'p', 'y'], bt := ['`', '`', '`', '`'], language := ['p', 'y'], config := [],
+    body := [['`', '`', '`', 's', 'c', 'r', 'u', 't'], ['$', ' ', 'n', 'o'], ['`', '`', '`']],
+    closer := ['`', '`', '`', '`'] }
 
-example : expectedTests envAll [.prose ['#', ' ', 'T'], .prose ['`', '`', 'x', '`', '`'], .block exampleBlock] 0 none []
-    = [{ title := ['T'], command := [['x'], ['y']], exitCode := some 7, expectations := [['o']],
-         lineNumber := 5, config := some (some ['a']) }] := by rfl
+/-- a scrut block that holds a comment only -/
+def exampleNoCommand : Fenced :=
+  { opener := ['`', '`', '`', 's', 'c', 'r', 'u', 't'], bt := ['`', '`', '`'], language := ['s', 'c', 'r', 'u', 't'],
+    config := [], body := [['#', ' ', 'n']], closer := ['`', '`', '`'] }
+
+/-- blank line, front-matter, heading, foreign block, paragraph, block without command,
+backtick-led prose, `---` as prose, block with a command -/
+def exampleDoc : List Item :=
+  [.prose [], .front [['a', ':', ' ', '1']], .prose ['#', ' ', 'T'], .foreign exampleForeign, .prose ['P'],
+   .noCommand exampleNoCommand, .prose ['`', '`', 'x', '`', '`'], .prose ['-', '-', '-'], .block exampleBlock]
+
+/-- the hypotheses of `C06_wellformed` are satisfiable, with every item kind -/
+example : ItemsWF envAll false exampleDoc :=
+  ⟨⟨rfl, by decide⟩, ⟨rfl, by decide, rfl⟩, ⟨rfl, by decide⟩, ⟨rfl, rfl, by decide, by decide, rfl⟩,
+   ⟨rfl, by decide⟩, ⟨rfl, rfl, trivial, by decide, rfl, by decide⟩, ⟨rfl, by decide⟩, ⟨rfl, by decide⟩,
+   ⟨rfl, rfl, rfl, by decide, rfl, by decide, by decide, by decide, rfl⟩, trivial⟩
+
+/-- … and its tests: the title runs across the foreign block ("T" and "P" are one title), the
+block without command keeps it, the `$` line is line 19 -/
+example : expectedTests envAll exampleDoc 0 none []
+    = [{ title := ['T', '\n', 'P'], command := [['x'], ['y']], exitCode := some 7,
+         expectations := [['o'], ['>', ' ', 'z']], lineNumber := 19, config := some (some ['a']) }] := by rfl
+
+example : parseLines envAll (render exampleDoc)
+    = .ok { docConfigs := [['a', ':', ' ', '1']], tests := expectedTests envAll exampleDoc 0 none [] } := by rfl
 
 /-- a normal document: title, comment, command, expectation, exit code, 1-based line of the `$` -/
 theorem C06_example_document :
